@@ -1571,14 +1571,14 @@ FIXED_WITNESSES = {
                "def f():\n    assert False\nf()\n"],
 }
 FIXED_WITNESSES.update({
-    # F16-12 (callees identified by a bare name), repaired by 094537d and c5a2ed7
+    # F16-12 (callees identified by a bare name), repaired by f4da292 and 88da62a
     "F16-12": ["_()\n",
                "class A:\n    def f(self):\n        return 1\nclass B:\n    def f(self):\n        print('x')\nB().f()\n",
                "from m import f\nclass A:\n    def f(self):\n        return 1\nf()\n",
                "class A(Base):\n    pass\nA()\n", "@deco\ndef f():\n    return 1\nf()\n",
                "def cb():\n    return 1\ndef run(cb):\n    cb()\n", "def f():\n    return 1\ndef g(f=print):\n    f()\n"],
 })
-# hunt C16-3 (b77e1c1), C16-4 (c5a2ed7), C16-5 (b8422f7), C16-8 (6a72b20): delete_pointless_statements must not touch them
+# hunt C16-3 (bd1824c), C16-4 (88da62a), C16-5 (c7c30bf), C16-8 (ace0735): delete_pointless_statements must not touch them
 UNCHANGED_WITNESSES = {}
 UNCHANGED_WITNESSES.update({
     "F16-16": ["try:\n    unicode\nexcept NameError:\n    unicode = str\n", "try:\n    int(s)\nexcept ValueError:\n    print('bad')\n",
